@@ -183,7 +183,7 @@ def contains(big, small):
 
 
 # ----------------------------------------------------------------------------- running
-def run_batch(ck, exe, lines, first=None, env=None):
+def run_batch(ck, exe, lines, first=None, env=None, max_restarts=60):
     """one answer per request; a request that kills the process gets 'CRASH …' / 'HANG' and the batch resumes"""
     out = [None] * len(lines)
     start = 0
@@ -217,7 +217,7 @@ def run_batch(ck, exe, lines, first=None, env=None):
         retries = 0
         start += k + 1
         restarts += 1
-        if restarts > 60:
+        if restarts > max_restarts:
             for i in range(start, len(lines)):
                 out[i] = "NOT-RUN"
             break
@@ -488,8 +488,14 @@ def run(ck):
         if ck.quick and len(cuts) > 700:
             cuts = sorted(set(rng.sample(cuts, 600) + cuts[-40:] + cuts[:20]))
         pl = ["R " + hx(f[:k]) for k in cuts]
-        pa, pm = both(pl)
+        # once the out-of-bounds read of truncated registries is reported, do not pay a restart for each further one
+        limit = 4 if (SITE_READ + ":truncated:out-of-bounds") in reported else 60
+        pa = run_batch(ck, harness, pl, env=env, max_restarts=limit)
+        pm = run_batch(ck, driver, pl, first=kline)
         for k, req, x, m in zip(cuts, pl, pa, pm):
+            if x == "NOT-RUN":
+                stats["prefix_outcomes"]["not-run"] = stats["prefix_outcomes"].get("not-run", 0) + 1
+                continue
             stats["prefixes"] += 1
             st, val = answer_desc(x)
             kind = st if st != "ok" else ("ok-full" if k >= len(f) - 1 else "ok-smaller")
